@@ -91,6 +91,9 @@ type Scenario struct {
 	Outer      bool   `json:"outer"` // the incoming request context already carries an application-level scope
 	CloseFail  bool   `json:"closefail"`
 	DefEH      bool   `json:"defeh"` // no error handler configured: the integration's default one is in use
+	// ReplaceCtx (fiber): a handler between the scope middleware and Handle replaces the user context with one that
+	// is not derived from the scope's; the fiber integration also keeps the scope in the request locals
+	ReplaceCtx bool `json:"replacectx"`
 }
 
 // outerCtx is the context every incoming request carries (context.Background unless the scenario says the
@@ -427,9 +430,18 @@ func buildFiber(sc *Scenario, p godi.Provider) *app {
 		}
 		a.Use(godifiber.ScopeMiddleware(p, opts...))
 	}
+	if sc.ReplaceCtx {
+		a.Use(func(c *fiberpkg.Ctx) error { c.SetUserContext(context.Background()); return c.Next() })
+	}
 	if sc.Handler == "handle" {
 		a.Get("/", godifiber.Handle(func(ct *Ctrl, c *fiberpkg.Ctx) error {
-			return method(sc, frq(c), ct, c.UserContext())
+			ctx := c.UserContext()
+			if sc.ReplaceCtx {
+				if s := godifiber.FromContext(c); s != nil {
+					ctx = s.Context() // the scope the integration keeps in the locals
+				}
+			}
+			return method(sc, frq(c), ct, ctx)
 		},
 			godifiber.WithPanicRecovery(sc.Recovery),
 			godifiber.WithScopeErrorHandler(func(c *fiberpkg.Ctx, err error) error {
